@@ -324,6 +324,20 @@ theorem trim_first_to_last_above_tol (tol : ℚ) (s : Spectrum) (m : ℚ)
       · intro j hj v hv; simpa using hlta j hj v hv
       · intro j hj v hv; simpa using hltb j hj v hv
 
+/-- crop does not depend on the absolute size of the wavelength numbers: rescaling the grid and both limits by k > 0
+(a change of unit, metres instead of nanometres) rescales the kept wavelengths, keeps the same samples and raises in the
+same cases — no absolute tolerance can enter -/
+theorem crop_scale_covariant (k lo hi : ℚ) (hk : 0 < k) (s : Spectrum) :
+    crop (lo * k) (hi * k) (scaleS k s) = (scaleS k (crop lo hi s).1, (crop lo hi s).2) := by
+  rw [crop_eq_stages, crop_eq_stages]
+  cases hw : s.wave with
+  | nil => simp [scaleS, hw]
+  | cons w0 ws =>
+    have : (scaleS k s).wave.head? = some (w0 * k) := by simp [scaleS, hw]
+    simp only [this, List.head?_cons]
+    rw [cropStage1_scale k lo w0 hk, cropStage2_scale k hi hk]
+
+
 /-- KNOWN FINDING witness (KF-C15-bin-integer-centres): with centres given as an integer-dtype array the Simpson grid
 is an integer array and its mid-points are truncated; for the linear spectrum 2λ+1 on [500, 520] and centres
 503, 506, 509, 512 the bins are not the exact integrals 3021, 3039, 3057, 3075 (which float centres give) -/
